@@ -297,6 +297,7 @@ def codec_roundtrip(arg):
         'descs': [0, 1, 2],
         'pts_adjustment': [0, 1, 2 ** 33 - 1],
         'tier': [0xFFF, 0, 1],
+        'seg_duration': [0, None, 2 ** 40 - 1],
     }
     names = list(A)
     combos = list(itertools.product(*[range(len(A[n])) for n in names]))
@@ -321,7 +322,7 @@ def codec_roundtrip(arg):
             descs = []
             for i in range(v['descs']):
                 descs.append(descriptors.SegmentationDescriptor(
-                    segmentation_event_id=[0, 2 ** 32 - 1][i], segmentation_duration=0,
+                    segmentation_event_id=[0, 2 ** 32 - 1][i], segmentation_duration=v['seg_duration'],
                     segmentation_type=descriptors.SegmentationTypeId.PROVIDER_PLACEMENT_OP_START + i))
             sig_ = BinarySignal(splice_insert=SpliceInsert(**si_kw), descriptors=descs,
                                 pts_adjustment=v['pts_adjustment'], tier=v['tier'])
@@ -359,6 +360,12 @@ def codec_roundtrip(arg):
             problems.append('pts_adjustment/tier')
         if len(d['descriptors']) != v['descs']:
             problems.append('descriptors')
+        for i, dd in enumerate(d['descriptors'][:v['descs']]):
+            # encoding then parsing is the identity on values: a duration of 0 is a duration, None is its absence
+            if dd.get('segmentation_event_id') != [0, 2 ** 32 - 1][i]:
+                problems.append('segmentation_event_id')
+            if dd.get('segmentation_duration') != v['seg_duration']:
+                problems.append('segmentation_duration')
         if problems:
             acc.violation(sig('codec', 'encoded-fields', cls, problems[0]), f'{v}: own decoder disagrees on {problems}: {si}', rec)
             continue
@@ -375,7 +382,7 @@ def codec_roundtrip(arg):
     return acc
 
 
-N_CODEC = 5 * 4 * 4 * 4 * 5 * 2 * 3 * 3 * 3
+N_CODEC = 5 * 4 * 4 * 4 * 5 * 2 * 3 * 3 * 3 * 3
 
 
 def codec_special(_):
